@@ -11,7 +11,7 @@
    correspondence + oracle (re-parse of the implementation's output). *)
 From Coq Require Import List NArith ZArith Bool.
 From TexModel Require Import Base Tables Chars Tokenizer Tree Reader.
-From TexProofs Require Import TokProofs ReaderLen ReaderCons ConsTop.
+From TexProofs Require Import TokProofs ReaderLen ReaderCons ConsTop ConsBridge ConsFix.
 Import ListNotations.
 
 Theorem C16_fixed_point_partial :
@@ -23,6 +23,18 @@ Theorem C16_fixed_point_partial :
     (forall t', parse (estr t) true user = Ok t' -> estr t' = estr t).
 Proof. exact parse_fixed_point_hyp. Qed.
 Print Assumptions C16_fixed_point_partial.
+
+Theorem C16_fixed_point_decidable_partial :
+  forall (s : str) (user : list str) (t : expr),
+    parse s true user = Ok t ->
+    hypb (all_skip user) (fst (tokens_of_string s)) = true ->
+    nobare t = true ->
+    no_arg_spacer (fst (tokens_of_string s)) = true ->
+    Forall (fun c => ign c = false) (categorize s) ->
+    parse (estr t) true user = Ok t /\
+    (forall t', parse (estr t) true user = Ok t' -> estr t' = estr t).
+Proof. exact parse_fixed_point. Qed.
+Print Assumptions C16_fixed_point_decidable_partial.
 
 (* the general case on an example: `\a [x] {y}z` -> `\a[x]{y}z` -> same text,
    same shape *)
